@@ -83,11 +83,24 @@ Definition serves (sch : schema) (l : leaf) : bool :=
   end.
 
 Definition zid := N.
+(** A candidate zone: its id and whether the object carries the event type's uid
+    ([CandidateZone::set_uid]) — the zones enumerated from the segment's zone metadata
+    ([create_all_zones_for_segment_from_meta*]: full scan, SuRF fallback, the complement of NOT) do,
+    the zones a pruner returns ([CandidateZone::new]) do not.  zone_hydrator.rs hydrates only the
+    uid-carrying zones as soon as ONE candidate of the query carries a uid (see Layout.v). *)
+Definition czone := (zid * bool)%type.
 Fixpoint memN (z : N) (l : list N) : bool :=
   match l with [] => false | x :: l' => (z =? x)%N || memN z l' end.
-Definition inter (a b : list zid) : list zid := filter (fun z => memN z b) a.
-Definition union (a b : list zid) : list zid := a ++ filter (fun z => negb (memN z a)) b.
-Definition minus (a b : list zid) : list zid := filter (fun z => negb (memN z b)) a.
+Fixpoint cmem (z : zid) (l : list czone) : bool :=
+  match l with [] => false | (x, _) :: l' => (z =? x)%N || cmem z l' end.
+Fixpoint ctag (z : zid) (l : list czone) : option bool :=
+  match l with [] => None | (x, t) :: l' => if (z =? x)%N then Some t else ctag z l' end.
+(** zone_combiner.rs: AND keeps the objects of the first child, OR lets a later child overwrite *)
+Definition inter (a b : list czone) : list czone := filter (fun z => cmem (fst z) b) a.
+Definition union (a b : list czone) : list czone := filter (fun z => negb (cmem (fst z) b)) a ++ b.
+Definition minus (a b : list czone) : list czone := filter (fun z => negb (cmem (fst z) b)) a.
+Definition tagged (zs : list zid) : list czone := map (fun z => (z, true)) zs.
+Definition untagged (zs : list zid) : list czone := map (fun z => (z, false)) zs.
 
 Section Collect.
   Variable sch : schema.
@@ -96,17 +109,17 @@ Section Collect.
   (** all zone ids of the segment *)
   Variable all : list zid.
 
-  Definition leaf_zones (l : leaf) : list zid :=
+  Definition leaf_zones (l : leaf) : list czone :=
     match choose sch l with
-    | SFullScan => all
-    | SSurf => match ans l with Some zs => zs | None => all end
-    | _ => if serves sch l then match ans l with Some zs => zs | None => [] end else []
+    | SFullScan => tagged all
+    | SSurf => match ans l with Some zs => untagged zs | None => tagged all end
+    | _ => if serves sch l then match ans l with Some zs => untagged zs | None => [] end else []
     end.
 
   (** [neg = true]: the zones of NOT g *)
-  Fixpoint collect (neg : bool) (g : fg) : list zid :=
+  Fixpoint collect (neg : bool) (g : fg) : list czone :=
     match g with
-    | FLeaf l => if neg then minus all (leaf_zones l) else leaf_zones l
+    | FLeaf l => if neg then minus (tagged all) (leaf_zones l) else leaf_zones l
     | FAnd a b => if neg then union (collect true a) (collect true b)
                   else inter (collect false a) (collect false b)
     | FOr a b => if neg then inter (collect true a) (collect true b)
@@ -116,9 +129,9 @@ Section Collect.
 
   (** the zones the segment flow reads for a query ([None] tree: no WHERE, or an empty IN list —
       the flat filter list of [build_all] then selects every zone of the type) *)
-  Definition candidates (w : option expr) : list zid :=
+  Definition candidates (w : option expr) : list czone :=
     match w with
-    | None => all
-    | Some e => match build_fg e with Some g => collect false g | None => all end
+    | None => untagged all
+    | Some e => match build_fg e with Some g => collect false g | None => untagged all end
     end.
 End Collect.
